@@ -171,6 +171,7 @@ class State:
         self.prodl = {}       # product symbol -> (canonical form a, canonical form b)
         self.steps = 0
         self.isc = {}
+        self.loop_entry = {}
         self.parted = frozenset()
         self.src = None
 
@@ -193,6 +194,7 @@ class State:
         s.prodl = dict(self.prodl)
         s.steps = self.steps
         s.isc = dict(self.isc)
+        s.loop_entry = self.loop_entry
         s.parted = self.parted
         s.src = self.src
         return s
